@@ -8,7 +8,13 @@ from checks import C10 as P
 
 MODULE = "Nice.Props.C08"
 THEOREMS = [f"Nice.Props.C08.{t}" for t in (
-    "C08_blit_content",)]
+    "C08_fifo_write_appends",
+    "C08_fifo_read_takes",
+    "C08_fifo_roundtrip",
+    "C08_sender_payload_from_ring",
+    "C08_receiver_store_keeps_committed_partial",
+    "C08_out_of_order_store_keeps_committed",
+    "C08_eos_requires_in_sequence_fin")]
 TRUSTED = P.TRUSTED[:3] + [
     "stream oracle: bytes accepted by send() (its return value) vs bytes returned by recv(), evaluated on the real code",
     "sequence numbers do not wrap within a connection (streams < 2^31 bytes; ISN is 0 in this code)",
@@ -16,7 +22,7 @@ TRUSTED = P.TRUSTED[:3] + [
 
 
 def sessions_for(exe, tier, seed):
-    n_long, n_short = (170, 140) if tier == "quick" else (4000, 3000)
+    n_long, n_short = (170, 140) if tier == "quick" else (2600, 2000)
     base = seed * 1000003
 
     def long_fn(live, rng):
